@@ -1653,7 +1653,7 @@ func (e *FnEnc) frameObligations() {
 	}
 	sort.Strings(names)
 	for _, k := range names {
-		if k == "$alloc" || strings.HasPrefix(k, "R/") {
+		if k == "$alloc" || strings.HasPrefix(k, "R/") || k == ghostClock {
 			continue
 		}
 		cur := e.exitState.heap[k]
